@@ -21,6 +21,44 @@ use write_fonts::{dump_table, FontBuilder};
 
 type Pairs = Vec<(u32, u32)>;
 
+thread_local! { static LAST_PANIC_LOC: std::cell::RefCell<String> = Default::default(); }
+/// silent panic hook that remembers where the panic happened (path made independent of the checkout)
+fn install_panic_hook() {
+    std::panic::set_hook(Box::new(|info| {
+        let loc = info.location().map(|l| format!("{}:{}", l.file(), l.line())).unwrap_or_default();
+        let loc = loc.rsplit("/repo/").next().unwrap_or(&loc).to_string();
+        LAST_PANIC_LOC.with(|l| *l.borrow_mut() = loc);
+    }));
+}
+/// stable key of a panic in the code under test: `panic:<file:line>:<message with numbers masked>`
+fn panic_key(msg: &str) -> String {
+    let loc = LAST_PANIC_LOC.with(|l| l.borrow().clone());
+    let mut m = String::new();
+    let mut in_num = false;
+    for ch in msg.chars().take(90) {
+        if ch.is_ascii_digit() {
+            if !in_num {
+                m.push('#');
+            }
+            in_num = true;
+        } else {
+            in_num = false;
+            m.push(ch);
+        }
+    }
+    format!("panic:{}:{}", loc, m)
+}
+/// run code under test; a panic becomes an oracle failure carrying `input` (and None is returned)
+fn guard<T>(st: &mut Stats, what: &str, input: &dyn Fn() -> serde_json::Value, f: impl FnOnce() -> T) -> Option<T> {
+    match catch(std::panic::AssertUnwindSafe(f)) {
+        Ok(v) => Some(v),
+        Err(msg) => {
+            report(st, json!({"key": panic_key(&msg), "what": format!("panic in {}", what), "panic": msg, "input": input()}));
+            None
+        }
+    }
+}
+
 thread_local! { static SEEN_KEYS: std::cell::RefCell<BTreeMap<String, u32>> = Default::default(); }
 /// report an oracle failure; a systematic key (same defect, many inputs) is recorded at most 3 times
 /// so that the 50-entry cap of Stats keeps room for other kinds (the counter still counts all)
@@ -230,7 +268,7 @@ fn to_char_pairs(input: &Pairs) -> Vec<(char, GlyphId)> {
 }
 
 /// Cmap::from_mappings -> dump_table -> font with maxp
-fn build(input: &Pairs, num_glyphs: u16) -> Outcome {
+fn build(input: &Pairs, num_glyphs: u16, st: &mut Stats) -> Outcome {
     let pairs = to_char_pairs(input);
     let w = match catch(move || wcmap::Cmap::from_mappings(pairs)) {
         Err(p) => return Outcome::Panic(p),
@@ -244,7 +282,7 @@ fn build(input: &Pairs, num_glyphs: u16) -> Outcome {
         Ok(Ok(b)) => b,
     };
     let mut b = Built { cmap_bytes: bytes.clone(), num_glyphs, ..Default::default() };
-    {
+    let assembled = catch(std::panic::AssertUnwindSafe(|| {
         let data = FontData::new(&bytes);
         let cmap = rcmap::Cmap::read(data).expect("compiled cmap reads back");
         for rec in cmap.encoding_records() {
@@ -271,12 +309,17 @@ fn build(input: &Pairs, num_glyphs: u16) -> Outcome {
             };
             b.records.push((rec.platform_id() as u16, rec.encoding_id(), fmt));
         }
+        let maxp = Maxp::new(num_glyphs);
+        let mut fb = FontBuilder::new();
+        fb.add_table(&w).unwrap();
+        fb.add_table(&maxp).unwrap();
+        b.font = fb.build();
+    }));
+    if let Err(p) = assembled {
+        // reading the compiled table back / assembling the font panicked: a failure of its own
+        report(st, json!({"key": panic_key(&p), "what": "panic while reading the compiled cmap back", "panic": p, "input": if input.len() <= 80 { json!(input) } else { json!(input.len()) }}));
+        return Outcome::DumpPanic(format!("read-back panic: {}", p));
     }
-    let maxp = Maxp::new(num_glyphs);
-    let mut fb = FontBuilder::new();
-    fb.add_table(&w).unwrap();
-    fb.add_table(&maxp).unwrap();
-    b.font = fb.build();
     Outcome::Built(b)
 }
 
@@ -725,12 +768,23 @@ fn gen_var14(rng: &mut Rng, st: &mut Stats, cw: &mut CaseWriter) {
             let mut cur = if rng.chance(1, 2) { rng.below(0x3000) as u32 } else { 0xFFF0 + rng.below(0x30) as u32 };
             for _ in 0..rng.below(5) {
                 let start = cur + 1 + rng.below(40) as u32;
-                let add = *rng.pick(&[0u8, 0, 1, 3, 255]);
+                let add = *rng.pick(&[0u8, 0, 1, 1, 3, 254, 255]);
                 for c in start..=start + add as u32 {
                     used.insert(c);
                 }
                 v.push((start, add));
                 cur = start + add as u32 + 1;
+            }
+            // a last range ending exactly at U+10FFFF (start + additionalCount + 1 = 0x110000 in the iterators)
+            if rng.chance(1, 4) {
+                let add = *rng.pick(&[0u8, 1, 254, 255]);
+                let start = 0x10FFFF - add as u32;
+                if start > cur {
+                    for c in start..=0x10FFFF {
+                        used.insert(c);
+                    }
+                    v.push((start, add));
+                }
             }
             Some(v)
         } else {
@@ -739,7 +793,7 @@ fn gen_var14(rng: &mut Rng, st: &mut Stats, cw: &mut CaseWriter) {
         let nond = if rng.chance(2, 3) {
             let mut m: BTreeMap<u32, u16> = BTreeMap::new();
             for _ in 0..rng.below(8) {
-                let c = if rng.chance(1, 2) { rng.below(0x3100) as u32 } else { 0xFFF0 + rng.below(0x140) as u32 };
+                let c = match rng.below(8) { 0 => 0x10FFFF - rng.below(300) as u32, 1..=4 => rng.below(0x3100) as u32, _ => 0xFFF0 + rng.below(0x140) as u32 };
                 if !used.contains(&c) {
                     m.insert(c, 1 + rng.below(2000) as u16);
                 }
@@ -844,13 +898,28 @@ fn gen_var14(rng: &mut Rng, st: &mut Stats, cw: &mut CaseWriter) {
             exp_iter.push((*c, *s, Some(*g as u32)));
         }
     }
-    let got_iter: Vec<(u32, u32, Option<u32>)> = charmap
-        .variant_mappings()
-        .map(|(c, s, v)| (c, s, conv(Some(v)).unwrap()))
-        .collect();
-    if got_iter != exp_iter {
-        report(st, json!({"key": format!("cmap14-iter:{:016x}", fnv(&bytes)), "expected_len": exp_iter.len(), "got_len": got_iter.len()}));
+    let tbl = || json!(format!("{:?}", table));
+    let it1 = guard(st, "Cmap14::iter", &tbl, || r14.iter().map(|(c, s, v)| (c, s, conv(Some(v)).unwrap())).collect::<Vec<(u32, u32, Option<u32>)>>());
+    let it2 = guard(st, "Charmap::variant_mappings", &tbl, || charmap.variant_mappings().map(|(c, s, v)| (c, s, conv(Some(v)).unwrap())).collect::<Vec<(u32, u32, Option<u32>)>>());
+    for (api, got) in [("Cmap14::iter", &it1), ("Charmap::variant_mappings", &it2)] {
+        if let Some(got) = got {
+            if *got != exp_iter {
+                let first = got.iter().zip(exp_iter.iter()).position(|(a, b)| a != b);
+                report(st, json!({"key": format!("cmap14-iter:{:016x}", fnv(&bytes)), "api": api, "expected_len": exp_iter.len(), "got_len": got.len(),
+                                  "first_difference_at": first, "table": format!("{:?}", table)}));
+            }
+        }
     }
+    st.add("var14.enumerated_triples", exp_iter.len() as u64);
+    for (_, d, _) in &table {
+        for (a, add) in d.iter().flatten() {
+            st.count(&format!("var14.additional_count.{}", match add { 0 => "0", 1 => "1", 254 => "254", 255 => "255", _ => "other" }));
+            if a + *add as u32 == 0x10FFFF {
+                st.count("var14.range_ends_at_10FFFF");
+            }
+        }
+    }
+    let got_iter = it1.unwrap_or_default();
     st.count("var14.tables");
     st.nontrivial(&format!("v14 {:?}", table));
     let sels_term = clist(table.iter(), |(s, d, n)| {
@@ -864,7 +933,8 @@ fn gen_var14(rng: &mut Rng, st: &mut Stats, cw: &mut CaseWriter) {
     let lk = clist(lookups.iter(), |(c, s, r)| {
         format!("({}, {}, {})", c, s, copt(r.map(|v| copt(v.map(|g| g.to_string())))))
     });
-    cw.push(format!("CVar14wf {} {}", sels_term, lk));
+    let it = clist(got_iter.iter(), |(c, s, v)| format!("({}, {}, {})", c, s, copt(v.map(|g| g.to_string()))));
+    cw.push(format!("CVar14wf {} {} {}", sels_term, lk, it));
 }
 
 /// the format-14 subtable of a real font: decoded to the model's table, every encoded point and its neighbours queried
@@ -930,6 +1000,24 @@ fn real_var14(font_bytes: &[u8], name: &str, st: &mut Stats, cw: &mut CaseWriter
         }
         lookups.push((*c, *s, got.unwrap_or(None)));
     }
+    let mut exp_iter: Vec<(u32, u32, Option<u32>)> = vec![];
+    for (s, d, n) in &table {
+        for (a, add) in d.iter().flatten() {
+            for c in *a..=*a + *add as u32 {
+                exp_iter.push((c, *s, None));
+            }
+        }
+        for (c, g) in n.iter().flatten() {
+            exp_iter.push((*c, *s, Some(*g as u32)));
+        }
+    }
+    let tbl = || json!(name);
+    let it1 = guard(st, "Cmap14::iter", &tbl, || r14.iter().map(|(c, s, v)| (c, s, conv(Some(v)).unwrap())).collect::<Vec<(u32, u32, Option<u32>)>>());
+    let it2 = guard(st, "Charmap::variant_mappings", &tbl, || charmap.variant_mappings().map(|(c, s, v)| (c, s, conv(Some(v)).unwrap())).collect::<Vec<(u32, u32, Option<u32>)>>());
+    if it1.as_ref() != Some(&exp_iter) || it2.as_ref() != Some(&exp_iter) {
+        report(st, json!({"key": format!("cmap14-iter:{}", name), "expected_len": exp_iter.len()}));
+    }
+    let got_iter = it1.unwrap_or_default();
     st.count("var14.real_font_tables");
     st.add("var14.real_font_queries", qs.len() as u64);
     let sels_term = clist(table.iter(), |(s, d, n)| {
@@ -941,11 +1029,12 @@ fn real_var14(font_bytes: &[u8], name: &str, st: &mut Stats, cw: &mut CaseWriter
         )
     });
     let lk = clist(lookups.iter(), |(c, s, r)| format!("({}, {}, {})", c, s, copt(r.map(|v| copt(v.map(|g| g.to_string()))))));
-    cw.push(format!("CVar14wf {} {}", sels_term, lk));
+    let it = clist(got_iter.iter(), |(c, s, v)| format!("({}, {}, {})", c, s, copt(v.map(|g| g.to_string()))));
+    cw.push(format!("CVar14wf {} {} {}", sels_term, lk, it));
 }
 
 fn main() {
-    silence_panics();
+    install_panic_hook();
     let args: Vec<String> = std::env::args().collect();
     let thorough = tier_is_thorough(&args);
     let seed = seed_from_env();
@@ -997,7 +1086,7 @@ fn main() {
         rng.shuffle(&mut input);
         let max_gid = input.iter().map(|p| p.1).max().unwrap_or(1);
         let num_glyphs = if valid { (max_gid + 1 + rng.below(3) as u32).min(65535) as u16 } else { 65535 };
-        let out = build(&input, num_glyphs);
+        let out = build(&input, num_glyphs, &mut st);
         st.evaluations += 1;
         st.count(match stream {
             Stream::Main => "build.small.main",
@@ -1008,7 +1097,7 @@ fn main() {
                 st.count("build.ok");
                 segment_stats(b, &mut st);
                 if valid {
-                    oracle_built(&input, b, &mut st, k % 4 == 0 || thorough);
+                    { let keep = key_of(&input); if let Err(p) = catch(std::panic::AssertUnwindSafe(|| oracle_built(&input, b, &mut st, k % 4 == 0 || thorough))) { report(&mut st, json!({"key": panic_key(&p), "what": "panic while checking a built table", "panic": p, "input_key": keep})); } }
                 }
             }
             Outcome::Conflict(_) => {
@@ -1041,8 +1130,9 @@ fn main() {
         st.sample(json!({"input": input.iter().take(10).collect::<Vec<_>>(), "outcome": match &out {
             Outcome::Built(b) => format!("built records={:?} segs={}", b.records, b.f4.as_ref().map(|t| t.endc.len()).unwrap_or(0)),
             Outcome::Panic(p) => format!("panic {}", p), Outcome::DumpPanic(p) => format!("dump panic {}", p), Outcome::Conflict(c) => c.clone() }}));
-        let term = impl_outcome_term(&input, &out, &mut rng);
-        cw.push(format!("CBuild {} {}", coq_pairs(&input), term));
+        if let Some(term) = guard(&mut st, "reading back for the model case", &|| json!(input), || impl_outcome_term(&input, &out, &mut rng)) {
+            cw.push(format!("CBuild {} {}", coq_pairs(&input), term));
+        }
     }
 
     // ---------- B. large mappings: oracle only (full BMP sweep) ----------
@@ -1065,13 +1155,13 @@ fn main() {
         }
         rng.shuffle(&mut input);
         let max_gid = input.iter().map(|p| p.1).max().unwrap_or(1);
-        let out = build(&input, (max_gid + 1).min(65535) as u16);
+        let out = build(&input, (max_gid + 1).min(65535) as u16, &mut st);
         st.evaluations += 1;
         st.count("build.large");
         match &out {
             Outcome::Built(b) => {
                 segment_stats(b, &mut st);
-                oracle_built(&input, b, &mut st, true);
+                { let keep = key_of(&input); if let Err(p) = catch(std::panic::AssertUnwindSafe(|| oracle_built(&input, b, &mut st, true))) { report(&mut st, json!({"key": panic_key(&p), "what": "panic while checking a built table", "panic": p, "input_key": keep})); } }
             }
             Outcome::Conflict(_) => report(&mut st, json!({"key": format!("spurious-conflict:{}", key_of(&input))})),
             Outcome::Panic(p) | Outcome::DumpPanic(p) => {
@@ -1087,10 +1177,10 @@ fn main() {
         // F-2 witness of DESIGN.md
         let input: Pairs = vec![(0x41, 40000)];
         st.evaluations += 1;
-        match build(&input, 40001) {
+        match build(&input, 40001, &mut st) {
             Outcome::Built(b) => {
                 st.count("probe.F-2.not_reproduced");
-                oracle_built(&input, &b, &mut st, true);
+                { let keep = key_of(&input); if let Err(p) = catch(std::panic::AssertUnwindSafe(|| oracle_built(&input, &b, &mut st, true))) { report(&mut st, json!({"key": panic_key(&p), "what": "panic while checking a built table", "panic": p, "input_key": keep})); } }
             }
             Outcome::Panic(p) | Outcome::DumpPanic(p) => {
                 st.count("probe.F-2.reproduced");
@@ -1099,41 +1189,41 @@ fn main() {
             }
             Outcome::Conflict(c) => report(&mut st, json!({"key": "probe-F-2-conflict", "c": c})),
         }
-        cw.push(format!("CBuild {} {}", coq_pairs(&input), impl_outcome_term(&input, &build(&input, 40001), &mut rng)));
+        { let out_t = build(&input, 40001, &mut st); if let Some(term) = guard(&mut st, "reading back for the model case", &|| json!(input.iter().take(80).collect::<Vec<_>>()), || impl_outcome_term(&input, &out_t, &mut rng)) { cw.push(format!("CBuild {} {}", coq_pairs(&input), term)); } }
         // former finding charmap-mappings-drops-U+10FFFF: must now enumerate the pair (oracle_built reports under that key)
         for input in [vec![(0x10FFFFu32, 5u32)], vec![(0x41, 1), (0x10FFFE, 7), (0x10FFFF, 8)]] {
             st.evaluations += 1;
-            match build(&input, 9) {
+            match build(&input, 9, &mut st) {
                 Outcome::Built(b) => {
                     st.count("probe.U+10FFFF.built");
-                    oracle_built(&input, &b, &mut st, true);
+                    { let keep = key_of(&input); if let Err(p) = catch(std::panic::AssertUnwindSafe(|| oracle_built(&input, &b, &mut st, true))) { report(&mut st, json!({"key": panic_key(&p), "what": "panic while checking a built table", "panic": p, "input_key": keep})); } }
                 }
                 _ => report(&mut st, json!({"key": "probe-U+10FFFF-not-built", "input": input})),
             }
-            cw.push(format!("CBuild {} {}", coq_pairs(&input), impl_outcome_term(&input, &build(&input, 9), &mut rng)));
+            { let out_t = build(&input, 9, &mut st); if let Some(term) = guard(&mut st, "reading back for the model case", &|| json!(input.iter().take(80).collect::<Vec<_>>()), || impl_outcome_term(&input, &out_t, &mut rng)) { cw.push(format!("CBuild {} {}", coq_pairs(&input), term)); } }
         }
         // more fixed inputs for the former F-2: delta exactly 32768, 65535, a run, and next to a range-offset segment
         for input in [vec![(0u32, 32768u32)], vec![(0, 65535)], vec![(1, 65535), (2, 1)], vec![(10, 40010), (11, 40011), (12, 40012)],
                       vec![(10, 40012), (11, 40011), (12, 40010), (13, 50000)]] {
             st.evaluations += 1;
             let ng = (input.iter().map(|p| p.1).max().unwrap() + 1).min(65535) as u16;
-            match build(&input, ng) {
+            match build(&input, ng, &mut st) {
                 Outcome::Built(b) => {
                     st.count("probe.F-2.corpus_built");
-                    oracle_built(&input, &b, &mut st, true);
+                    { let keep = key_of(&input); if let Err(p) = catch(std::panic::AssertUnwindSafe(|| oracle_built(&input, &b, &mut st, true))) { report(&mut st, json!({"key": panic_key(&p), "what": "panic while checking a built table", "panic": p, "input_key": keep})); } }
                 }
                 Outcome::Panic(p) | Outcome::DumpPanic(p) => report(&mut st, json!({"key": "F-2:cmap4-delta-i16-panic", "input": input, "panic": p})),
                 Outcome::Conflict(c) => report(&mut st, json!({"key": "probe-F-2-conflict", "c": c})),
             }
-            cw.push(format!("CBuild {} {}", coq_pairs(&input), impl_outcome_term(&input, &build(&input, ng), &mut rng)));
+            { let out_t = build(&input, ng, &mut st); if let Some(term) = guard(&mut st, "reading back for the model case", &|| json!(input.iter().take(80).collect::<Vec<_>>()), || impl_outcome_term(&input, &out_t, &mut rng)) { cw.push(format!("CBuild {} {}", coq_pairs(&input), term)); } }
         }
         // F-9: 9000 isolated BMP code points (format 4 would need 9001 segments = 72 024 bytes)
         let input: Pairs = (0..9000u32).map(|i| (0x100 + 3 * i, 1 + i)).collect();
         st.evaluations += 1;
-        match build(&input, 9002) {
+        match build(&input, 9002, &mut st) {
             Outcome::Built(b) => {
                 st.count("probe.F-9.not_reproduced");
-                oracle_built(&input, &b, &mut st, true);
+                { let keep = key_of(&input); if let Err(p) = catch(std::panic::AssertUnwindSafe(|| oracle_built(&input, &b, &mut st, true))) { report(&mut st, json!({"key": panic_key(&p), "what": "panic while checking a built table", "panic": p, "input_key": keep})); } }
             }
             Outcome::Panic(p) | Outcome::DumpPanic(p) => {
                 st.count("probe.F-9.reproduced");
@@ -1149,7 +1239,7 @@ fn main() {
         for (name, pieces, input) in [("isolated_8189", "[(8189%nat, 256, 3, 1, 1)]", (0..8189u32).map(|i| (0x100 + 3 * i, 1 + i)).collect::<Pairs>()),
                                       ("range_offset_overflow", "[(32800%nat, 0, 1, 40000, (-1)); (3%nat, 40000, 1, 9, (-1))]", ro_overflow)] {
             st.evaluations += 1;
-            let out = build(&input, 40001);
+            let out = build(&input, 40001, &mut st);
             match &out {
                 Outcome::Built(_) => report(&mut st, json!({"key": format!("probe-{}-built", name)})),
                 Outcome::Panic(p) | Outcome::DumpPanic(p) => {
@@ -1166,10 +1256,10 @@ fn main() {
         // the largest isolated-point mapping that fits: 8188 segments + sentinel = 16 + 8*8189 = 65528 bytes
         let input: Pairs = (0..8188u32).map(|i| (0x100 + 3 * i, 1 + i)).collect();
         st.evaluations += 1;
-        match build(&input, 9002) {
+        match build(&input, 9002, &mut st) {
             Outcome::Built(b) => {
                 st.count("probe.max_segments.built");
-                oracle_built(&input, &b, &mut st, true);
+                { let keep = key_of(&input); if let Err(p) = catch(std::panic::AssertUnwindSafe(|| oracle_built(&input, &b, &mut st, true))) { report(&mut st, json!({"key": panic_key(&p), "what": "panic while checking a built table", "panic": p, "input_key": keep})); } }
             }
             Outcome::Panic(p) | Outcome::DumpPanic(p) => {
                 report(&mut st, json!({"key": "probe-max-segments-panic", "panic": p}));
@@ -1181,15 +1271,23 @@ fn main() {
     // ---------- D. reader-only cases on arbitrary decoded arrays; variation selectors ----------
     let n_read = if thorough { 3000 } else { 450 };
     for _ in 0..n_read {
-        gen_read4(&mut rng, &mut st, &mut cw);
+        if let Err(p) = catch(std::panic::AssertUnwindSafe(|| gen_read4(&mut rng, &mut st, &mut cw))) {
+            report(&mut st, json!({"key": panic_key(&p), "what": "panic in stream gen_read4 (input reproducible from the seed)", "panic": p}));
+        }
     }
     for _ in 0..n_read * 2 / 3 {
-        gen_read12(&mut rng, &mut st, &mut cw);
+        if let Err(p) = catch(std::panic::AssertUnwindSafe(|| gen_read12(&mut rng, &mut st, &mut cw))) {
+            report(&mut st, json!({"key": panic_key(&p), "what": "panic in stream gen_read12 (input reproducible from the seed)", "panic": p}));
+        }
     }
     for _ in 0..n_read / 2 {
-        gen_var14(&mut rng, &mut st, &mut cw);
+        if let Err(p) = catch(std::panic::AssertUnwindSafe(|| gen_var14(&mut rng, &mut st, &mut cw))) {
+            report(&mut st, json!({"key": panic_key(&p), "what": "panic in stream gen_var14 (input reproducible from the seed)", "panic": p}));
+        }
     }
-    real_var14(font_test_data::CMAP14_FONT1, "cmap14_font1", &mut st, &mut cw);
+    if let Err(p) = catch(std::panic::AssertUnwindSafe(|| real_var14(font_test_data::CMAP14_FONT1, "cmap14_font1", &mut st, &mut cw))) {
+        report(&mut st, json!({"key": panic_key(&p), "what": "panic on cmap14_font1.ttf", "panic": p}));
+    }
 
     let shards = cw.finish();
     st.v.insert("shards".into(), shards.into());
